@@ -237,6 +237,16 @@ def do_action(pool, act, ctx, problems, hist_state):
                 x = g2.vars[-1].da
                 pool.live.setdefault(vid, []).append(x)
                 ctx.count("rebuilds")
+                # chunks="auto" leaves resolve against the configuration in force NOW, whatever was built earlier
+                for st_, var_ in zip(g2.steps, g2.vars):
+                    if st_["op"] == "from_array" and st_["p"].get("auto") and var_.da is not None:
+                        from dask_array._core_utils import normalize_chunks
+
+                        want = normalize_chunks("auto", tuple(st_["p"]["shape"]), dtype=np.dtype(st_["p"]["dtype"]))
+                        ctx.count("auto_chunk_leaves_checked")
+                        if tuple(var_.da.chunks) != tuple(want):
+                            problems.append(("rebuild_chunks_follow_history", f"from_array(chunks='auto') rebuilt under {act.get('cfg')} has chunks {var_.da.chunks}; the configuration in force gives {want} (an earlier build under another array.chunk-size is still alive)", "history:rebuild:auto_chunks_follow_an_earlier_configuration", vid, None))
+                            break
                 with dask.config.set(act.get("cfg2", {})):
                     judge(x.compute(), "rebuild")
             elif kind == "follow_on":
